@@ -217,6 +217,23 @@ func init() {
 				if r.Chance(1, 3) {
 					stop = uint64(count(r))
 				}
+				if r.Chance(1, 3) && w.B[s].M.Card() < 300000 {
+					// stop exactly on the last value of a run of consecutive values (ascending consumers),
+					// or on the first value of one (descending)
+					el := w.B[s].M.Slice()
+					var ends []int
+					for i := range el {
+						if i+1 == len(el) || el[i+1] != el[i]+1 {
+							ends = append(ends, i)
+						}
+					}
+					if len(ends) > 0 {
+						stop = uint64(ends[r.Intn(len(ends))])
+						if which == 2 {
+							stop = uint64(len(el) - 1 - ends[r.Intn(len(ends))])
+						}
+					}
+				}
 			}
 			a, b := uint64(0), uint64(0)
 			if which == 3 {
